@@ -162,18 +162,27 @@ func runC16(p *core.Program, r *core.Report) {
 		r.Unrecognised("R16.2", "NewCharRecipe", "constructor", "", "not found")
 	} else {
 		checkCtor(p, r, fn, "CharRecipe", map[string]func(ssa.Value) (bool, string){
-			"Length":  func(v ssa.Value) (bool, string) { return v == paramOrNil(fn, 0), "must be the length parameter" },
-			"Allow":   func(v ssa.Value) (bool, string) { c, ok := core.ConstUint(v); return ok && c == allow, fmt.Sprintf("must be Letters|Digits|Symbols (%d)", allow) },
-			"Exclude": func(v ssa.Value) (bool, string) { c, ok := core.ConstUint(v); return ok && c == flags["Ambiguous"], "must be Ambiguous" },
+			"Length": func(v ssa.Value) (bool, string) { return v == paramOrNil(fn, 0), "must be the length parameter" },
+			"Allow": func(v ssa.Value) (bool, string) {
+				c, ok := core.ConstUint(v)
+				return ok && c == allow, fmt.Sprintf("must be Letters|Digits|Symbols (%d)", allow)
+			},
+			"Exclude": func(v ssa.Value) (bool, string) {
+				c, ok := core.ConstUint(v)
+				return ok && c == flags["Ambiguous"], "must be Ambiguous"
+			},
 		})
 	}
 	if fn := p.Func("NewWLRecipe"); fn == nil {
 		r.Unrecognised("R16.2", "NewWLRecipe", "constructor", "", "not found")
 	} else {
 		checkCtor(p, r, fn, "WLRecipe", map[string]func(ssa.Value) (bool, string){
-			"Length":     func(v ssa.Value) (bool, string) { return v == paramOrNil(fn, 0), "must be the length parameter" },
-			"list":       func(v ssa.Value) (bool, string) { return v == paramOrNil(fn, 1), "must be the word-list parameter" },
-			"Capitalize": func(v ssa.Value) (bool, string) { s, ok := core.ConstString(v); return ok && s == "none", "must be CSNone (\"none\")" },
+			"Length": func(v ssa.Value) (bool, string) { return v == paramOrNil(fn, 0), "must be the length parameter" },
+			"list":   func(v ssa.Value) (bool, string) { return v == paramOrNil(fn, 1), "must be the word-list parameter" },
+			"Capitalize": func(v ssa.Value) (bool, string) {
+				s, ok := core.ConstString(v)
+				return ok && s == "none", "must be CSNone (\"none\")"
+			},
 		})
 	}
 	capDoc := map[string]string{"CSNone": "none", "CSFirst": "first", "CSAll": "all", "CSRandom": "random", "CSOne": "one"}
